@@ -1427,6 +1427,8 @@ def evalf(e, env=None, seed=0, strict=False, tie=0.0):
                 v = float("nan") if x != x or abs(x) == float("inf") else float(round(x, nd))
             elif k in ("fn:floor", "fn:ceil", "fn:trunc", "fn:int") and len(a.args) == 1:
                 x = val(a.args[0])
+                if tie and x == x and abs(x) != float("inf") and abs(x - round(x)) <= tie * max(1.0, abs(x)):
+                    x = float(round(x))          # a point ON a jump of the step function: the argument counts as exactly that integer
                 v = float("nan") if x != x or abs(x) == float("inf") else float({"fn:floor": math.floor, "fn:ceil": math.ceil}.get(k, math.trunc)(x))
             elif k == "fn:clip" and len(a.args) == 3:
                 x = val(a.args[0])
@@ -1532,6 +1534,11 @@ def guard_worlds(a, b, seed, limit=40):
                     worlds.append((env, 1e-9, f"guard {'holds' if truth else 'fails'} through its equalities", -1))
                 except (AlgError, ZeroDivisionError, OverflowError):
                     pass
+    # the jumps of step functions (floor, ceil, trunc, int) are boundaries too: the argument equal to a small integer
+    for at in sorted(atoms_of(lift(a) - lift(b), deep=True), key=lambda a_: a_.id):
+        if at.kind in ("fn:floor", "fn:ceil", "fn:trunc", "fn:int") and len(at.args) == 1 and isinstance(at.args[0], E) and len(leaves) < 60:
+            for k_ in (1, 0, -1, 2):
+                leaves.append(("Eq", at.args[0], lift(k_)))
     li = -1
     for op, x, y in leaves:
         d = x - y
